@@ -341,6 +341,38 @@ def isrm (Nx Ny : Nat) (Rx Ry CR : List (List Bool)) : Option (List (List Bool))
         else (Ry.getD (i - Nx) []).getD (j - Nx) false)
   else none
 
+/-! ### slice assignment `M[rlo:rhi, clo:chi] = B` (the assembly as the code writes it; the
+slice bounds are generated from the source, `RecurrenceObjects.isrmParts`) -/
+
+/-- a slot `M[rlo:rhi, clo:chi]` of a 2-D slice assignment -/
+structure Slot where
+  rlo : Int
+  rhi : Int
+  clo : Int
+  chi : Int
+
+def Slot.r0 (s : Slot) (n : Nat) : Nat := pyBound s.rlo n
+def Slot.r1 (s : Slot) (n : Nat) : Nat := pyBound s.rhi n
+def Slot.c0 (s : Slot) (n : Nat) : Nat := pyBound s.clo n
+def Slot.c1 (s : Slot) (n : Nat) : Nat := pyBound s.chi n
+
+def Slot.has (s : Slot) (n i j : Nat) : Bool :=
+  decide (s.r0 n ≤ i ∧ i < s.r1 n ∧ s.c0 n ≤ j ∧ j < s.c1 n)
+
+/-- the block has exactly the shape of the slot (NumPy would otherwise broadcast or raise) -/
+def Slot.fits (s : Slot) (n : Nat) (B : List (List Bool)) : Bool :=
+  B.length == s.r1 n - s.r0 n && B.all (·.length == s.c1 n - s.c0 n)
+
+/-- `M = np.zeros((n, n)); M[slot₀] = B₀; M[slot₁] = B₁; …` — later assignments win;
+`none` = a block does not have the shape of its slot -/
+def assemble (n : Nat) (parts : List (Slot × List (List Bool))) : Option (List (List Bool)) :=
+  if parts.all (fun p => p.1.fits n p.2) then
+    some (tab n n fun i j =>
+      match parts.reverse.find? (fun p => p.1.has n i j) with
+      | some p => (p.2.getD (i - p.1.r0 n) []).getD (j - p.1.c0 n) false
+      | none => false)
+  else none
+
 /-! ### network adjacency: `A = R.copy(); A.flat[::stride] = 0` -/
 
 /-- zero every `stride`-th element of the row-major flattening of an `s×s` matrix -/
